@@ -56,6 +56,28 @@ func verifStubWorker(w *Worker, powDigest []byte, startNonce uint64, sufficientT
 	return 0, ErrDone
 }
 
+// In VerifC12Mine the two threshold functions are uninterpreted functions of (message length, target): what
+// Mine must hand to its workers is "the thresholds of THIS call's data and target", whatever their
+// arithmetic (which VerifC12Sufficient / VerifC12Target decide).
+func verifStubTargetHash(data []byte, targetScore uint64) *big.Int {
+	return new(big.Int).SetUint64(verifUF("targetHash", 64, verifLenTarget(len(data), targetScore)))
+}
+
+func verifStubSufficient(data []byte, targetScore uint64) int {
+	return int(verifUF("sufficient", 8, verifLenTarget(len(data), targetScore)))
+}
+
+func verifLenTarget(n int, t uint64) []byte {
+	b := make([]byte, 12)
+	for i := 0; i < 4; i++ {
+		b[i] = byte(n >> (8 * uint(i)))
+	}
+	for i := 0; i < 8; i++ {
+		b[4+i] = byte(t >> (8 * uint(i)))
+	}
+	return b
+}
+
 // VerifC12Mine: (workers, calls) — `calls` successive Mine calls on ONE Worker value with different data
 // lengths and targets (state kept between calls must not leak): every worker receives the BLAKE2b-256
 // digest of the data, start nonce i*floor((2^64-1)/workers), sufficientTrailingZeros(data, t) and
@@ -69,10 +91,12 @@ func verifStubWorker(w *Worker, powDigest []byte, startNonce uint64, sufficientT
 //verif:run thorough workers=64 calls=1
 //verif:big int
 //verif:replace (*github.com/wollac/iota-crypto-demo/pkg/pow/v2.Worker).worker verifStubWorker
-//verif:timeout 120
+//verif:replace targetHash verifStubTargetHash
+//verif:replace sufficientTrailingZeros verifStubSufficient
+//verif:timeout 60
 func VerifC12Mine(workers, calls int) {
 	w := New(workers)
-	lens := []int{5, 10, 0, 0} // 5*t = 10*t' and 0*t = 0*t' have solutions: incomplete memoisation keys collide
+	lens := []int{0, 0, 5, 10} // 0*t = 0*t' and 5*t = 10*t' have solutions: incomplete memoisation keys collide
 	if !verifSymbolic() {
 		verifC12MineNative(w, lens[:calls])
 		return
@@ -132,14 +156,14 @@ func VerifC12Mine(workers, calls int) {
 // native concretisation: real workers, small targets; the returned nonce must reach the target score and
 // (single worker) no earlier block of 64 nonces may hold a nonce whose difficulty exceeds len*t
 func verifC12MineNative(w *Worker, lens []int) {
-	targets := []uint64{3, 40, 9, 200, 1}
+	targets := []uint64{3, 300, 40, 20, 2}
 	for round := 0; round < 2; round++ {
 		for ci, n := range lens {
 			data := make([]byte, n)
 			for i := range data {
 				data[i] = byte(7*i + 13*ci + round)
 			}
-			t := targets[(ci+3*round)%len(targets)]
+			t := targets[(ci+round)%len(targets)]
 			nonce, err := w.Mine(context.Background(), data, t)
 			verifAssert("mine.native.noerror", err == nil)
 			verifAssert("mine.native.score", verifNativeScore(data, nonce) >= t)
